@@ -41,6 +41,8 @@ def search(deadline, rng, n=40, runs=3):
             if time.time() > deadline:
                 return None
             r = replayrun.run('alpha', data, timeout=30)
+            if r.get('status') in ('timeout', 'build-failed', 'unknown'):
+                continue    # inconclusive run
             key = (r.get('status'), (r.get('result') or {}).get('errors'), (r.get('result') or {}).get('lints'), (r.get('result') or {}).get('diag'), r.get('detail') if r.get('status') != 'ok' else None)
             seen.append((key, r))
         if len(set(k for k, _ in seen)) > 1:
